@@ -174,6 +174,26 @@ func (u *cUniverse) execOp(srv *olareg.Server, o cOp) (int, string, string) {
 	case "collect":
 		_ = srv.VerifGC(u.repo)
 		r.code = 200
+	case "newRepoPush":
+		// first write to a repository nobody has touched yet (several clients race on its initialisation)
+		b := []byte(fmt.Sprintf("first-%d", o.N))
+		r = doReq(srv, "POST", fmt.Sprintf("/v2/fresh%d/blobs/uploads/?digest=%s", o.N, dig("sha256", b)), b, &reqOpt{remote: fmt.Sprintf("10.0.0.%d:1234", o.N)})
+	case "newRepoRead":
+		b := []byte(fmt.Sprintf("first-%d", o.N))
+		r = doReq(srv, "GET", fmt.Sprintf("/v2/fresh%d/blobs/%s", o.N, dig("sha256", b)), nil, &reqOpt{hdr: map[string]string{"X-Forwarded-For": fmt.Sprintf("10.0.1.%d", o.N)}})
+	case "newRepoTags":
+		r = doReq(srv, "GET", fmt.Sprintf("/v2/fresh%d/tags/list", o.N), nil, nil)
+	case "sessionAbandon":
+		// open a session, write a little, never finish: left to eviction / expiry
+		r = doReq(srv, "POST", base+"/blobs/uploads/", nil, nil)
+		if r.code == 202 {
+			_ = doReq(srv, "PATCH", r.hdr.Get("Location"), []byte("partial"), hdr("Content-Range", "0-6"))
+		}
+	case "getRefsFiltered":
+		r = doReq(srv, "GET", base+"/referrers/"+u.subj[o.Subj]+"?artifactType=application/vnd.x.c11", nil, nil)
+		if l := r.hdr.Get("Link"); l != "" && strings.Contains(l, "<") {
+			_ = doReq(srv, "GET", l[strings.Index(l, "<")+1:strings.Index(l, ">")], nil, nil)
+		}
 	}
 	p := ""
 	if r.panicV != nil {
@@ -226,6 +246,10 @@ func genCProgram(t *rapid.T, kinds []string, maxClients, maxOps int) cProgram {
 				o.Subj = rapid.IntRange(0, 1).Draw(t, "subject")
 			case "upload", "uploadChunked":
 				o.N = rapid.IntRange(0, 5).Draw(t, "blob")
+			case "newRepoPush", "newRepoRead", "newRepoTags":
+				o.N = rapid.IntRange(0, 2).Draw(t, "freshRepo")
+			case "getRefsFiltered":
+				o.Subj = rapid.IntRange(0, 1).Draw(t, "subject")
 			}
 			ops = append(ops, o)
 		}
